@@ -284,6 +284,19 @@ crc_op(int argc, char **argv)
         if (dep) snprintf(out, sizeof out, "%04x depends-on-alignment-or-split:%d", ref, dep);
         else snprintf(out, sizeof out, "%04x", ref);
         free(buf);
+    } else if (strcmp(op, "crc.mid") == 0 && argc == 4) {
+        /* a dense buffer of n octets (up to a few MiB) made by rule - octet i is bits 7..14 of i * 2654435761 - so that
+         * lengths far beyond what a line of hex can carry are compared with the model's value, whole and in two parts */
+        uint16_t init = (uint16_t)strtoul(argv[1], NULL, 16);
+        size_t n = parse_u64(argv[2]), k = parse_u64(argv[3]);
+        if (n > (16u << 20) || k > n) { printf("bad-op"); return; }
+        unsigned char *m = malloc(n ? n : 1);
+        for (size_t i = 0; i < n; i++) m[i] = (unsigned char)((i * 2654435761ull) >> 7);
+        uint16_t whole = ufw_crc16_arc(init, m, n);
+        uint16_t split = ufw_crc16_arc(ufw_crc16_arc(init, m, k), m + k, n - k);
+        uint16_t words = (n % 2 == 0) ? ufw_crc16_arc_u16(init, (const uint16_t *)(const void *)m, n / 2) : whole;
+        free(m);
+        snprintf(out, sizeof out, "whole=%04x split=%04x words=%04x", whole, split, words);
     } else if (strcmp(op, "crc.huge") == 0 && argc == 4) {
         /* a buffer beyond 32 bits of length (address space only, a few octets set): the checksum of the whole must equal
          * the checksum continued over its two parts, each of which is shorter than 2^32 - the concatenation law of the
